@@ -78,7 +78,7 @@ impl TraitHandler for DebugStructHandler {
                     };
 
                     let ty = &field.ty;
-                    let borrow = super::common::borrow_for_builder(ty);
+                    let borrow = super::common::borrow_for_builder(ast, ty);
 
                     if let Some(method) = field_attribute.method {
                         builder_token_stream.extend(super::common::create_format_arg(
@@ -127,7 +127,7 @@ impl TraitHandler for DebugStructHandler {
                         IdentOrIndex::from_ident_with_index(field.ident.as_ref(), index);
 
                     let ty = &field.ty;
-                    let borrow = super::common::borrow_for_builder(ty);
+                    let borrow = super::common::borrow_for_builder(ast, ty);
 
                     if let Some(method) = field_attribute.method {
                         builder_token_stream.extend(super::common::create_format_arg(
